@@ -162,39 +162,6 @@ claims = {
 na_reasons = {
     "C12": "quantifies over goroutine interleavings and the Go memory model; a sequential SSA symbolic interpreter cannot soundly decide races or deadlocks and no concurrency-aware engine for Go exists in this image (DESIGN.md 6)",
 }
-all_ids = ["C%02d" % i for i in range(1, 21)]
-checks = []
-for pid in all_ids:
-    if pid not in props:
-        continue
-    text, note, ref = claims[pid]
-    checks.append({
-        "property_id": pid, "quick_cmd": "./check %s quick" % pid, "thorough_cmd": "./check %s thorough" % pid,
-        "evidence_file": "/verif/evidence/%s.json" % pid, "replay_cmd_template": "./check replay %s {path}" % pid,
-        "engine": "gosym",
-        "level_claimed": {"category": props[pid]["level"], "text": text, "design_ref": ref},
-        "level_note": note + " SQLite, the OS, object stores and goroutine scheduling are outside the claim (stubs listed in the evidence). Engine soundness is argued (native validation of sampled passing paths, z3 5.1 and cvc5 on sampled queries), not proven. Nothing is claimed beyond the stated bounds.",
-        "technique": TECH,
-    })
-na = [{"property_id": p, "reason": na_reasons.get(p, "check not built yet in this session (planned: DESIGN.md 5)")} for p in all_ids if p not in props]
-manifest = {
-    "version": 1,
-    "setup_cmd": "./setup.sh",
-    "hooks": {
-        "guard": "verif",
-        "enable": "none needed: harnesses and the vx support package are injected by in-memory overlay (go/packages Overlay for the engine, go test -overlay for native replay); /repo is never modified by a check",
-        "baseline_off_cmd": "for m in $(cat /w/out/gomods.txt); do MF=$(cd /repo/$m && . /w/out/goenv.sh && gomodflag); (cd /repo/$m && go test $MF -json -vet=off -count=1 -timeout 25m ./...); done",
-        "source_commits": [], "add_only": True,
-    },
-    "engines": [{
-        "name": "gosym", "path": "/verif/engine", "serves_properties": [c["property_id"] for c in checks],
-        "kind_free_text": "bounded symbolic execution of the real Go code: own go/ssa interpreter with SMT bit-vector terms, stateless DFS path exploration, one z3 -in process per worker deciding branch feasibility and every assertion; counterexamples replayed natively (go test -overlay) before being reported; queries cross-checked with z3 5.1 and cvc5",
-    }],
-    "checks": checks,
-    "not_applicable": na,
-    "notes": "All checks share one engine (gosym). Exit 0 = every path explored within the stated bound and every obligation unsat; exit 1 = a solver model that reproduced natively, printed as VIOLATION; exit 2 = inconclusive (harness does not compile against the tree, unsupported construct, solver unknown, encoding mismatch) and never an alarm.",
-}
-json.dump(manifest, open(os.path.join(os.path.dirname(os.path.dirname(os.path.abspath(__file__))), "MANIFEST.gen.json"), "w"), indent=1)
 
 props["C19"] = {
     "level": "model_checking", "validate": 6,
@@ -439,6 +406,43 @@ rewrites = [
     {"file": "db.go", "from": "func (db *DB) sync(", "to": "func (db *DB) syncReal("},
 ]
 
+def write_manifest():
+    all_ids = ["C%02d" % i for i in range(1, 21)]
+    checks = []
+    for pid in all_ids:
+        if pid not in props:
+            continue
+        text, note, ref = claims[pid]
+        checks.append({
+            "property_id": pid, "quick_cmd": "./check %s quick" % pid, "thorough_cmd": "./check %s thorough" % pid,
+            "evidence_file": "/verif/evidence/%s.json" % pid, "replay_cmd_template": "./check replay %s {path}" % pid,
+            "engine": "gosym",
+            "level_claimed": {"category": props[pid]["level"], "text": text, "design_ref": ref},
+            "level_note": note + " SQLite, the OS, object stores and goroutine scheduling are outside the claim (stubs listed in the evidence). Engine soundness is argued (native validation of sampled passing paths, z3 5.1 and cvc5 on sampled queries), not proven. Nothing is claimed beyond the stated bounds.",
+            "technique": TECH,
+        })
+    na = [{"property_id": p, "reason": na_reasons.get(p, "check not built yet in this session (planned: DESIGN.md 5)")} for p in all_ids if p not in props]
+    manifest = {
+        "version": 1,
+        "setup_cmd": "./setup.sh",
+        "hooks": {
+            "guard": "verif",
+            "enable": "none needed: harnesses and the vx support package are injected by in-memory overlay (go/packages Overlay for the engine, go test -overlay for native replay); /repo is never modified by a check",
+            "baseline_off_cmd": "for m in $(cat /w/out/gomods.txt); do MF=$(cd /repo/$m && . /w/out/goenv.sh && gomodflag); (cd /repo/$m && go test $MF -json -vet=off -count=1 -timeout 25m ./...); done",
+            "source_commits": [], "add_only": True,
+        },
+        "engines": [{
+            "name": "gosym", "path": "/verif/engine", "serves_properties": [c["property_id"] for c in checks],
+            "kind_free_text": "bounded symbolic execution of the real Go code: own go/ssa interpreter with SMT bit-vector terms, stateless DFS path exploration, one z3 -in process per worker deciding branch feasibility and every assertion; counterexamples replayed natively (go test -overlay) before being reported; queries cross-checked with z3 5.1 and cvc5",
+        }],
+        "checks": checks,
+        "not_applicable": na,
+        "notes": "All checks share one engine (gosym). Exit 0 = every path explored within the stated bound and every obligation unsat; exit 1 = a solver model that reproduced natively, printed as VIOLATION; exit 2 = inconclusive (harness does not compile against the tree, unsupported construct, solver unknown, encoding mismatch) and never an alarm.",
+    }
+    json.dump(manifest, open(os.path.join(os.path.dirname(os.path.dirname(os.path.abspath(__file__))), "MANIFEST.gen.json"), "w"), indent=1)
+
+
+write_manifest()
 spec = {"repo": "/repo", "groups": groups, "properties": props, "rewrites": rewrites}
 out = os.path.join(os.path.dirname(os.path.abspath(__file__)), "spec.gen.json")
 json.dump(spec, open(out, "w"), indent=1)
